@@ -1264,3 +1264,56 @@ Section OnModel.
       + destruct (interp_only_flagged_change r c Hr Hc Hf) as [_ E]. rewrite Hrm in E. rewrite E. apply NB; assumption.
   Qed.
 End OnModel.
+
+(* ------------------------------------------------------------------ after the cross-check (validation_run) *)
+Lemma xcheck_never_both_all : forall thr me other, ds_nc me <= 2 ^ 63 ->
+  never_both (ds_nr me) (ds_nc me) (ds_mask me) ->
+  never_both (ds_nr me) (ds_nc me) (ds_mask (xcheck thr me other)).
+Proof.
+  intros thr me other Hnc NB r c Hr Hc. assert (Hin : in_ds me r c) by (split; assumption).
+  destruct (border_at me r c) eqn:Eb.
+  - destruct (Z_lt_le_dec 0 (ds_offset me)) as [Ho|Ho].
+    + rewrite xcheck_border_bit0 by assumption. reflexivity.
+    + exfalso. unfold border_at, is_border in Eb. lia.
+  - destruct (spec_valid (ds_mask me r c)) eqn:Ev.
+    + apply xcheck_never_both; assumption.
+    + rewrite xcheck_invalid_untouched by assumption. apply NB; assumption.
+Qed.
+
+Lemma remarked_border_at : forall m me r c, border_at me r c = false ->
+  remarked_by m (ds_nr me) (ds_nc me) (ds_offset me) r c = false.
+Proof. intros m me r c H. destruct m; cbn [remarked_by]. unfold border_at in H. rewrite H. apply andb_false_r. reflexivity. Qed.
+
+(* interpolation of a dataset that has just been cross-checked *)
+Lemma interp_after_xcheck : forall thr m me other, ds_nc me <= 2 ^ 63 ->
+  never_both (ds_nr me) (ds_nc me) (ds_mask me) ->
+  forall r c, in_ds me r c ->
+    (0 < ds_offset me -> border_at me r c = true -> ds_mask (interp_ds m (xcheck thr me other)) r c = 1) /\
+    (flagged (ds_mask (xcheck thr me other) r c) = false ->
+       ds_disp (interp_ds m (xcheck thr me other)) r c = ds_disp me r c /\
+       ds_mask (interp_ds m (xcheck thr me other)) r c = ds_mask (xcheck thr me other) r c) /\
+    (0 <= ds_mask me r c < 65536 -> 0 <= ds_mask (interp_ds m (xcheck thr me other)) r c < 65536).
+Proof.
+  intros thr m me other Hnc NB r c Hin. pose proof Hin as [Hr Hc].
+  pose proof (xcheck_never_both_all thr me other Hnc NB) as NBX.
+  set (X := xcheck thr me other) in *.
+  assert (Enr : ds_nr X = ds_nr me) by reflexivity. assert (Enc : ds_nc X = ds_nc me) by reflexivity.
+  assert (Eof : ds_offset X = ds_offset me) by reflexivity. assert (Edd : ds_disp X = ds_disp me) by reflexivity.
+  unfold interp_ds. cbn [ds_mask ds_disp]. rewrite Enr, Enc, Eof, Edd.
+  assert (B1 : 0 < ds_offset me -> border_at me r c = true -> ds_mask X r c = 1).
+  { intros Ho Hb. apply xcheck_border_bit0; assumption. }
+  split; [|split].
+  - intros Ho Hb.
+    apply (proj2 (interp_border_bit0 m (ds_nr me) (ds_nc me) (ds_offset me) (ds_disp me) (ds_mask X) NBX r c Hr Hc)). apply B1; assumption.
+  - intro Hf. destruct (interp_only_flagged_change m (ds_nr me) (ds_nc me) (ds_offset me) (ds_disp me) (ds_mask X) NBX r c Hr Hc Hf) as [Ed Em].
+    split. exact Ed. rewrite Em.
+    destruct (remarked_by m (ds_nr me) (ds_nc me) (ds_offset me) r c) eqn:Hrm; [|reflexivity].
+    apply remarked_is_mc in Hrm. destruct Hrm as (_ & Ho & Hb). symmetry. apply B1. exact Ho. exact Hb.
+  - intro Hm. apply (interp_no_wrap m (ds_nr me) (ds_nc me) (ds_offset me) (ds_disp me) (ds_mask X) NBX r c Hr Hc).
+    apply xcheck_no_wrap; assumption.
+Qed.
+
+Lemma validation_interp_run_eq : forall thr m L R,
+  validation_interp_run thr m L R
+  = (interp_ds m (xcheck thr L R), interp_ds m (xcheck thr R (xcheck thr L R))).
+Proof. reflexivity. Qed.
